@@ -1,2 +1,5 @@
 pub mod c06;
 pub mod c20;
+pub mod c07;
+pub mod c11;
+pub mod c13;
